@@ -67,7 +67,9 @@ def build(tier="quick", seed=0):
     def options_ok(events, which):
         want = {"packb-options": {("use_bin_type", True), ("unicode_errors", "surrogateescape")}, "unpackb-options": {("use_list", False), ("raw", False), ("unicode_errors", "surrogateescape")}}[which]
         evs = [set(e[1:-1]) for e in events if e[0] == which]
-        return bool(evs) and all(e == want for e in evs)
+        # (further options are fine when they do not narrow what the format can carry: size limits at least as large as a frame can be, map keys of any type)
+        harmless = lambda k_, v_: k_ == "strict_map_key" or (k_.startswith("max_") and isinstance(v_, int) and v_ >= 2**32 - 1)
+        return bool(evs) and all(want <= e and all(harmless(*x_) for x_ in e - want) for e in evs)
 
     # ---------------------------------------------------------------- constants of the format
     def th_constants():
@@ -295,6 +297,41 @@ def build(tier="quick", seed=0):
                         replay=lambda w: {"call": "c02_compat", "args": {"extra": -1}}, functions=FU))
     pack.add(Obligation("C02.compat[identifier is a bare name]", lambda tier: prove_paths("C02.compat[identifier is a bare name]", th_unpack_record(INR, ident_form="name"), judge_unpacked(), lambda m_, p: {}, allow_raise=None),
                         replay=lambda w: {"call": "c02_compat", "args": {"extra": 0, "bare": True}}, functions=FU))
+
+    # ---- the registry of a reader / writer forgets nothing: a stream may announce any number of types, each only once
+    def th_registry_keeps():
+        D = it.call(RD, ["c02/rec", list(FIELDS)], {})
+        N = it.call(RD, ["c02/new", [("varint", "n")]], {})
+        p = it.call(pk.g["RecordPacker"], [], {})
+        old_keys = [(f"c02/t{i:04d}", i) for i in range(3000)] + [f"c02/t{i:04d}" for i in range(3000)]
+        reg = it.getattr_(p, "descriptors")
+        for k in old_keys:
+            reg[k] = D
+        saved_limit, it.loop_limit = it.loop_limit, 20000  # (concrete loops over the registry, if any, are run to their end)
+        try:
+            it.call(it.getattr_(p, "register"), [N], {})
+        finally:
+            it.loop_limit = saved_limit
+        reg = it.getattr_(p, "descriptors")
+        missing = [k for k in old_keys if k not in reg]
+        return len(missing), missing[:2], it.getattr_(N, "identifier") in reg
+
+    pack.add(Obligation("C02.registry[6000 entries: registering one more type keeps every earlier one]", lambda tier: prove_paths("C02.registry[6000 entries: registering one more type keeps every earlier one]", th_registry_keeps,
+                        lambda p: (p.value[0] == 0 and p.value[2] is True, f"after register() {p.value[0]} of 6000 earlier registry entries are gone (e.g. {p.value[1]}); new type registered: {p.value[2]}")),
+                        replay=lambda w: {"call": "c02_registry_keeps", "args": {}}, functions=FU, mode="frame condition of RecordPacker.register on a large concrete registry"))
+
+    def th_bare_name_latest():
+        """records of earlier releases name their type without a hash: they belong to the definition of that name announced LAST before them"""
+        D1 = it.call(RD, ["c02/evolve", [("varint", "n")]], {})
+        D2 = it.call(RD, ["c02/evolve", [("varint", "n"), ("string", "s")]], {})
+        p = packer_with(D1, D2)
+        gen = W.datetime_utc_tree(blob, 2020, 1, 2, 3, 4, 5, 6)
+        o = unpack(p, W.ext(blob, W.SUB_RECORD, W.arr(W.leaf("c02/evolve"), W.arr(W.leaf(7), W.leaf("seven"), W.leaf(None), W.leaf(None), gen, W.leaf(1)))))
+        return (isinstance(o, PObj) and it.getattr_(o, "_desc") is D2), it.unbase(o.attrs.get("s")) if isinstance(o, PObj) else None
+
+    pack.add(Obligation("C02.compat[bare name, the type was announced twice: the later definition applies]", lambda tier: prove_paths("C02.compat[bare name, the type was announced twice: the later definition applies]", th_bare_name_latest,
+                        lambda p: (p.value == (True, "seven"), f"a record that names its type without a hash was decoded with the earlier definition of that name (s={p.value[1]!r})"), lambda m_, p: {}, allow_raise=None),
+                        replay=lambda w: {"call": "c02_bare_name_latest", "args": {}}, functions=FU, mode="concrete two-definition history"))
 
     def th_unpack_descriptor():
         p = packer_with()
